@@ -5,7 +5,7 @@
    touching the PC.  Statements only (proofs in Proofs/StepInstancesMul.v). *)
 From Coq Require Import ZArith Bool List.
 From ArmV Require Import Lib.PyZ Lib.Monad Lib.Machine Spec.Pseudocode Spec.Arch Spec.MachineView Spec.Branches Spec.StepFrame
-  Spec.OperandSpec Spec.Arith Spec.Arith2 Proofs.StateLemmas Proofs.CondProofs Proofs.GuardProofs Proofs.DPLemmas Proofs.StepProofs Proofs.StepInstancesMul Proofs.StepInstancesMla Proofs.StepInstancesMulT2.
+  Spec.OperandSpec Spec.Arith Spec.Arith2 Proofs.StateLemmas Proofs.CondProofs Proofs.GuardProofs Proofs.DPLemmas Proofs.StepProofs Proofs.StepInstancesMul Proofs.StepInstancesMla Proofs.StepInstancesMulT2 Proofs.StepInstancesMlaT1.
 From Gen Require Import enums opsyn core exec conc decoders step.
 Import ListNotations.
 Open Scope Z_scope.
@@ -79,3 +79,25 @@ Theorem C09_mul_t2_step cfg s w s1 :
   pc_of (AdvancePC (it_step_after s1 s2)) = add32 (pc_of s1) 4.
 Proof. exact (mul_t2_step cfg s w s1). Qed.
 Print Assumptions C09_mul_t2_step.
+
+(* MLA<c> / MLS<c> Rd, Rn, Rm, Ra (Thumb T1: 11111 0110 000 Rn : Ra Rd 000x Rm), registers in r0-r12 and pairwise different (Proofs/StepInstancesMlaT1.v) *)
+Theorem C09_mlaT1_step cfg s w s1 :
+  ArmV6_fetch_instruction cfg s = Ok w s1 ->
+  0 <= w < 2 ^ 32 -> is_mlx_t1 0 w -> iset_of s1 = 1 -> opcode_len s1 = 32 -> ictx cfg s1 -> cond_holds s1 ->
+  let d := bits w 11 8 in let a := bits w 15 12 in let n := bits w 19 16 in let m := bits w 3 0 in
+  let op := (code_Mla, [w; 0; m; a; d; n]) in
+  let s2 := Mla_sem (cfg_arch_version cfg) (begin_instr s1 op) 0 m a d n in
+  ArmV6_emulate_cycle cfg s = Ok tt (AdvancePC (it_step_after s1 s2)) /\
+  pc_of (AdvancePC (it_step_after s1 s2)) = add32 (pc_of s1) 4.
+Proof. exact (mlaT1_step cfg s w s1). Qed.
+Print Assumptions C09_mlaT1_step.
+Theorem C09_mlsT1_step cfg s w s1 :
+  ArmV6_fetch_instruction cfg s = Ok w s1 ->
+  0 <= w < 2 ^ 32 -> is_mlx_t1 1 w -> iset_of s1 = 1 -> opcode_len s1 = 32 -> ictx cfg s1 -> cond_holds s1 ->
+  let d := bits w 11 8 in let a := bits w 15 12 in let n := bits w 19 16 in let m := bits w 3 0 in
+  let op := (code_Mls, [w; m; a; d; n]) in
+  let s2 := Mls_sem (cfg_arch_version cfg) (begin_instr s1 op) m a d n in
+  ArmV6_emulate_cycle cfg s = Ok tt (AdvancePC (it_step_after s1 s2)) /\
+  pc_of (AdvancePC (it_step_after s1 s2)) = add32 (pc_of s1) 4.
+Proof. exact (mlsT1_step cfg s w s1). Qed.
+Print Assumptions C09_mlsT1_step.
